@@ -19,7 +19,8 @@ RULE = ("(a) traced single calls: record sizes (message + newline, so >= 2 bytes
         "file with path template / devtty / devnull; from the syscall log: the log descriptor is opened with O_APPEND and without "
         "O_TRUNC, exactly one data-transferring call is made on it whose size is the whole record, no ftruncate / positional write, and the "
         "file afterwards is old content + record. (b) stress: 2..16 concurrent writers (processes x threads) append uniquely "
-        "numbered records of 1..70000 bytes to one file; the file must be a permutation of whole records, none lost. non-trivial "
+        "numbered records of 1..70000 bytes to one file; the file must be a permutation of whole records, none lost. (c) devtty output with a controlling terminal "
+        "that is read only after 0.8..1.5 s: 60..2000 records must all arrive whole, once, in order. non-trivial "
         "(a) = record > 4096 bytes or pre-existing content without final newline or file absent; distinct by (size, state, output)")
 
 SIZES = [2, 3, 100, 4094, 4095, 4096, 4097, 8191, 8192, 8193, 16382, 16383, 16384, 16385, 20000, 65535, 65536, 65537, 131072, 500000, 1048574, 1048575]
@@ -244,6 +245,40 @@ def stress(ctx, build, rounds, nproc, nthreads, ncalls, seed):
     return total, None
 
 
+def stalled_terminal(ctx, build, ncalls, size, delay_ms):
+    """devtty output while the terminal is not being read for a while: records pile up in the tty queue, the writers have to wait --
+    every record must still arrive whole, once and in order."""
+    d = drv.Driver(ctx.run, build, timeout_ms=60000)
+    out = d.out
+    try:
+        ini = gen.render_ini([(b"output", b"devtty"), (b"message_format", b"%{cmdline}")])
+        capture = out + "/tty-capture"
+        ops = [drv.op("f"), drv.op("T", "lazy", delay_ms, capture), drv.op("C", ini)]
+        want = []
+        for k in range(ncalls):
+            arg = (b"%05d-" % k) + b"r" * (size - 12)
+            want.append(b"rec " + arg + b"\n")
+            ops.append(drv.op_exec("e", b"/bin/rec", [b"rec", arg], [], ret=-1, err=2))
+        ops.append(drv.op("y"))
+        res = d.scenario(ops)
+        case = {"stalled_terminal": True, "calls": ncalls, "record_bytes": size, "terminal_not_read_for_ms": delay_ms}
+        ctx.count(("stalled-tty", ncalls, size), ["stalled-terminal"], sample=case)
+        if res.timedout or not res.of("y"):
+            ctx.violation(case, {"result": res.describe()}, None, "calls logging to a terminal that is read only after %d ms did not complete" % delay_ms)
+            return
+        try:
+            got = open(capture, "rb").read()
+        except FileNotFoundError:
+            got = b""
+        if got != b"".join(want):
+            lines = got.split(b"\n")
+            whole = sum(1 for l in lines if l + b"\n" in set(want))
+            ctx.violation(case, {"bytes": len(got), "whole_records": whole, "tail": got[-80:]}, {"bytes": len(b"".join(want)), "records": ncalls},
+                          "records written to a terminal that was not read for %d ms are cut or lost (%d calls x %d bytes)" % (delay_ms, ncalls, size))
+    finally:
+        d.close()
+
+
 def main():
     ctx = Ctx(PID, "exploration", RULE)
     b = ctx.run.build("ts-plain")
@@ -272,6 +307,7 @@ def main():
     for _ in range(40 if ctx.quick else 600):
         jobs.append((rng.choice([rng.randint(1, 9000), rng.randint(1, 1048575), rng.choice(SIZES) + rng.choice([-1, 0, 1])]), rng.choice(STATES), "file"))
     jobs = [(max(2, min(s, 1048576)), st_, o) for s, st_, o in jobs]
+    jobs += [(100, "symlink", "file"), (4097, "symlink", "file"), (100, "dangling-symlink", "file")]
     for s_ in [100, 5000, 20000] if ctx.quick else [2, 100, 4097, 5000, 20000, 70000, 1048575]:
         jobs += [(s_, "lines", "file", "shortwrite"), (s_, "nonl", "file", "shortwrite")]
     nw = 16
@@ -292,6 +328,10 @@ def main():
         if viol and len(ctx.violations) < 4:
             ctx.violation({"stress": [rounds, nproc, nthreads, ncalls]}, viol["observed"], None, viol["what"])
     ctx.extra["stress_records_written"] = tot
+    # a terminal that is not read for a while (devtty output): 60 KiB and more pile up against a tty queue of a few KiB
+    for ncalls, size, delay in ([(60, 1000, 1200)] if ctx.quick else [(60, 1000, 1200), (400, 1000, 1500), (30, 4000, 800), (2000, 60, 1000)]):
+        if len(ctx.violations) < 4:
+            stalled_terminal(ctx, b, ncalls, size, delay)
     ctx.finish()
 
 
